@@ -126,8 +126,35 @@ func (fs *FS) mountPoint(path string) (_ hackpadfs.FS, mountPoint, subPath strin
 
 // Open implements hackpadfs.FS
 func (fs *FS) Open(name string) (hackpadfs.File, error) {
-	mountFS, subPath := fs.Mount(name)
-	return mountFS.Open(subPath)
+	if !hackpadfs.ValidPath(name) {
+		// let the root file system reject the invalid path
+		return fs.rootFS.Open(name)
+	}
+	mountFS, mountPoint, subPath := fs.mountPoint(name)
+	f, err := mountFS.Open(subPath)
+	return f, errInMount(err, mountPoint)
+}
+
+// errInMount translates the paths inside an error returned by the file system mounted at 'mountPoint'
+// from that file system's namespace into the caller's namespace.
+func errInMount(err error, mountPoint string) error {
+	if err == nil || mountPoint == "." {
+		return err
+	}
+	inMount := func(p string) string {
+		if p == "." || p == "" {
+			return mountPoint
+		}
+		return mountPoint + "/" + p
+	}
+	switch err := err.(type) {
+	case *hackpadfs.PathError:
+		return &hackpadfs.PathError{Op: err.Op, Path: inMount(err.Path), Err: err.Err}
+	case *hackpadfs.LinkError:
+		return &hackpadfs.LinkError{Op: err.Op, Old: inMount(err.Old), New: inMount(err.New), Err: err.Err}
+	default:
+		return err
+	}
 }
 
 // Point represents a mount point, including any relevant metadata
@@ -166,7 +193,7 @@ func (fs *FS) Rename(oldname, newname string) error {
 	}
 
 	if oldPoint == newPoint {
-		return hackpadfs.Rename(oldMount, oldSubPath, newSubPath)
+		return errInMount(hackpadfs.Rename(oldMount, oldSubPath, newSubPath), oldPoint)
 	}
 	if oldInfo.IsDir() {
 		// TODO support renaming directories
@@ -175,12 +202,12 @@ func (fs *FS) Rename(oldname, newname string) error {
 
 	oldFile, err := oldMount.Open(oldSubPath)
 	if err != nil {
-		return err
+		return errInMount(err, oldPoint)
 	}
 	defer func() { _ = oldFile.Close() }()
 	newFile, err := hackpadfs.OpenFile(newMount, newSubPath, hackpadfs.FlagWriteOnly|hackpadfs.FlagCreate|hackpadfs.FlagTruncate, oldInfo.Mode())
 	if err != nil {
-		return err
+		return errInMount(err, newPoint)
 	}
 	newFileWriter, ok := newFile.(io.Writer)
 	if !ok {
@@ -192,5 +219,5 @@ func (fs *FS) Rename(oldname, newname string) error {
 		_ = hackpadfs.Remove(newMount, newSubPath)
 		return err
 	}
-	return hackpadfs.Remove(oldMount, oldSubPath)
+	return errInMount(hackpadfs.Remove(oldMount, oldSubPath), oldPoint)
 }
